@@ -99,10 +99,13 @@ func runC02(c *an.Ctx) {
 	whoMayWrite(c, "R2", pkgWAF, "Transaction", "interruption", []storeRule{
 		{fn: "internal/corazawaf.(*Transaction).Interrupt", why: "stored under RuleEngine == On", check: func(c *an.Ctx, fs an.FieldStore) (bool, string) {
 			f := an.FactsAt(fs.Store)
-			if f.HasSuffix(".RuleEngine", "==", on) {
-				return true, "guard RuleEngine == On dominates the store"
+			if !f.HasSuffix(".RuleEngine", "==", on) {
+				return false, "the store of tx.interruption is not dominated by RuleEngine == On: DetectionOnly/Off transactions could be interrupted"
 			}
-			return false, "the store of tx.interruption is not dominated by RuleEngine == On: DetectionOnly/Off transactions could be interrupted"
+			if fg := foreignGuards(f, ".RuleEngine"); len(fg) > 0 {
+				return false, "with the engine On the interruption is additionally conditioned on " + strings.Join(fg, ", ") + ": in those states a disruptive match does not interrupt (e.g. after a would-be interruption recorded in DetectionOnly and a ctl:ruleEngine=On)"
+			}
+			return true, "guard RuleEngine == On, and nothing else, dominates the store"
 		}},
 		{fn: "internal/corazawaf.(*WAF).newTransaction", why: "reset", check: storesConst("nil")},
 	})
@@ -115,7 +118,10 @@ func runC02(c *an.Ctx) {
 			if !f.HasSuffix(".detectionOnlyInterruption", "==", "nil") {
 				return false, "store not dominated by detectionOnlyInterruption == nil (the first would-be interruption must win)"
 			}
-			return true, "guards RuleEngine == DetectionOnly and detectionOnlyInterruption == nil dominate"
+			if fg := foreignGuards(f, ".RuleEngine", ".detectionOnlyInterruption"); len(fg) > 0 {
+				return false, "the would-be interruption is additionally conditioned on " + strings.Join(fg, ", ")
+			}
+			return true, "guards RuleEngine == DetectionOnly and detectionOnlyInterruption == nil, and nothing else, dominate"
 		}},
 		{fn: "internal/corazawaf.(*WAF).newTransaction", why: "reset", check: storesConst("nil")},
 	})
